@@ -45,7 +45,7 @@ func (w *world) refChunks() []string {
 					buf = append(buf, pkey(p.id, p.elapsed, p.payload))
 					size += len(p.payload)
 				}
-				switch w.p.Policy {
+				switch w.pol() {
 				case "size", "intsize":
 					if size > 4 {
 						cut()
@@ -61,7 +61,7 @@ func (w *world) refChunks() []string {
 				}
 				fi++
 			case op == "Z":
-				if w.p.Policy == "interval" || w.p.Policy == "intsize" {
+				if w.pol() == "interval" || w.pol() == "intsize" {
 					cut()
 				}
 			}
@@ -121,14 +121,14 @@ func (w *world) oracleC20(v *vlib.Verdict) {
 				v.Fail("C20.barrier", "not-cut", "%s: Flush returned nil but only %d of the %d points accepted before the call have been cut", s.when, s.st.TotalDataPoints, s.accBefore)
 			}
 		}
-		if s.when == "after-interval" && (w.p.Policy == "interval" || w.p.Policy == "intsize") && w.p.Writers <= 1 {
+		if s.when == "after-interval" && (w.pol() == "interval" || w.pol() == "intsize") && w.p.Writers <= 1 {
 			if buffered != 0 {
 				v.Fail("C20.interval", "held", "one flush interval after the last write %d points are still buffered", buffered)
 			}
 		}
 	}
 	// policy none: nothing transmitted before the first Flush / Close
-	if w.p.Policy == "none" {
+	if w.pol() == "none" {
 		for _, s := range w.states {
 			if s.when == "before-flush" || s.when == "before-close" {
 				if s.chunks != 0 || s.st.LastIssuedSequenceNumber != 0 {
@@ -160,7 +160,7 @@ func (w *world) oracleC20(v *vlib.Verdict) {
 		}
 		if !okRef {
 			kind := "boundaries"
-			v.Fail("C20.cut/"+w.p.Policy, kind, "chunks at the broker %v != chunks promised by policy %s for history %v: %v", got, w.p.Policy, w.p.Ops, ref)
+			v.Fail("C20.cut/"+w.pol(), kind, "chunks at the broker %v != chunks promised by policy %s for history %v: %v", got, w.pol(), w.p.Ops, ref)
 		}
 	}
 	for i, e := range w.flushErrs {
